@@ -22,7 +22,9 @@ TRANSCRIBED = {
     # Folder.pre_timestep / File.pre_timestep are checked to be structurally inert by fsxlate._check_inert_methods
     # second batch: copy_file, delete_file_by_id, delete_folder_by_id, get_folder_by_id, Folder.get_file_by_id / remove_file_by_id / remove_all_files
     # third batch: FileSystem.apply_timestep / Folder.apply_timestep translated; Folder._scan_timestep / scan / repair / corrupt checked inert
-    ("FileSystem", FS): ["move_file"],
+    # fourth batch: move_file translated too — no method of the four classes is under the textual tie any more (the request handlers
+    # and validators still are: fsHandlers / validators)
+    ("FileSystem", FS): [],
     # restore_file and add_file are tied semantically instead (extract/fsxlate.py, C15_gen_restore_file / C15_gen_add_file)
     ("Folder", FOLDER): [],
     # File.restore/delete/scan/repair/corrupt/check_hash and Folder.restore/delete/check_hash are translated onto records that
